@@ -22,6 +22,9 @@ def render : Out → String
   | .identClean n d => s!"ev ident.clean {d} 0 {nameStr n}"
   | .identEnd n d f g c l => s!"ident.end {n} delta={d} fn={f} glob={g} cls={c} local={l}"
   | .localsEnd c m lo t => s!"locals.end cur={c} max={m} name={lo} type={t}"
+  | .scr n t sz l lg none => s!"ev {n} {t} {sz} {l} {lg}"
+  | .scr n t sz l lg (some k) => s!"ev {n} {t} {sz} {l} {lg} {k}"
+  | .scrEnd l t lg => s!"scratch.end last={l} tail={t} large={lg}"
   | .crash w => s!"crash model {w}"
 
 def afterEq (s : String) : Option Int := match s.splitOn "=" with
@@ -43,6 +46,14 @@ def parseLine (line : String) : Line :=
     | some a, some sa, some bf, some sb, true =>
       .out (.identBind (bname.drop 11).toString a sa (if n == "-" then "" else n) (p == "1") bf sb)
     | _, _, _, _, _ => .other line
+  | ["ev", name, t, sz, l, lg] =>
+    match t.toNat?, sz.toNat?, l.toNat?, lg.toNat?, name.startsWith "scr." with
+    | some t, some sz, some l, some lg, true => .out (.scr name t sz l lg none)
+    | _, _, _, _, _ => .other line
+  | ["ev", name, t, sz, l, lg, k] =>
+    match t.toNat?, sz.toNat?, l.toNat?, lg.toNat?, k.toNat?, name.startsWith "scr." with
+    | some t, some sz, some l, some lg, some k, true => .out (.scr name t sz l lg (some k))
+    | _, _, _, _, _, _ => .other line
   | ["ev", name, c, s] =>
     match c.toInt?, s.toInt? with
     | some c, some s => .out (.ev name c s)
@@ -55,6 +66,10 @@ def parseLine (line : String) : Line :=
     match afterEq c, afterEq m, afterEq lo, afterEq t with
     | some c, some m, some lo, some t => .out (.localsEnd c.toNat m.toNat lo.toNat t.toNat)
     | _, _, _, _ => .other line
+  | ["scratch.end", l, t, lg] =>
+    match afterEq l, afterEq t, afterEq lg with
+    | some l, some t, some lg => .out (.scrEnd l.toNat t.toNat lg.toNat)
+    | _, _, _ => .other line
   | ["cfg", "maxlocals", n] => match n.toNat? with | some n => .cfg n | none => .other line
   | "result" :: rest => .result rest
   | "probe" :: _ => .probe (line.drop 6).toString
@@ -108,6 +123,7 @@ def toEvent (s : St) (name : String) (c sz : Int) (rest : List Line) : Except St
     | none => .error s!"desync: no open literal saved ({c},{sz})"
   | "local.argtypes" => .ok (some (.argTypes (c - s.loc.tOff).toNat))
   | "local.cleanup" => .ok (some .cleanup)
+  | "local.fn_reset" => .ok (some .fnReset)
   | "mem.req" =>
     let sync := match rest with
       | .out (.ev "mem.before" c0 m0) :: _ => some (c0.toNat, m0.toNat)
@@ -156,6 +172,22 @@ def replayGo : List Line → List String → Replay → Replay
       | none => replayGo ls raws { r with out := s!"desync: unknown name space {k}" :: r.out }
       | some kind =>
         let e := Ev.bind kind name perm after.toNat sb
+        let (st', os) := step r.st e
+        replayGo ls raws { r with st := st', out := (os.map render).reverse ++ r.out, evs := e :: r.evs }
+    | .out (.scr name t _ l _ k) =>
+      let ev : Option Ev := match name with
+        | "scr.push" => some (.scrAlloc (t - l))
+        | "scr.large" => some .scrLarge
+        | "scr.free_last" => some (.scrFreeLast (k.getD 0))
+        | "scr.resize" => some (.scrResize (t - l))
+        | "scr.join" => some .scrJoin
+        | "scr.mark" => some .scrMark
+        | "scr.free_block" => some .scrFreeBlock
+        | "scr.destroy" => some .scrDestroy
+        | _ => none            -- scr.after is printed by the model together with scr.free_last
+      match ev with
+      | none => replayGo ls raws r
+      | some e =>
         let (st', os) := step r.st e
         replayGo ls raws { r with st := st', out := (os.map render).reverse ++ r.out, evs := e :: r.evs }
     | .out _ => replayGo ls raws r          -- identifier / end-of-compile reports are produced by the model
